@@ -39,7 +39,7 @@ long long g_progress_ticks = 0;
 const int PROGRESS_N = 10000;
 long long g_inflate_budget = 100000;
 std::deque<std::string> g_recent_sql;
-size_t g_alloc_cap = (size_t)256 << 20;
+size_t g_alloc_cap = (size_t)128 << 20;
 
 char* g_witness = nullptr;
 const size_t WITNESS_SIZE = 1 << 20;
